@@ -348,7 +348,7 @@ class Holder:
             st = self._apply(s, cons)
             return [st] if st is not None else []
 
-        _, ex = flow.run(fn, [state], transfer, refine, limit=100000)
+        _, ex = flow.run_ps(fn, [state], transfer, refine, limit=100000)
         return set(ex)
 
 
